@@ -348,12 +348,13 @@ func (c *client) connect1(ctx async.Context) (internalConn, status.Status) {
 		return conn, st
 	}
 
-	// Return if cancelled/closed
+	// Return if closed/cancelled, check closed first, close also cancels the routine
+	if c.closed_.IsSet() {
+		return nil, status.Closedf("mpx client closed")
+	}
 	select {
 	case <-ctx.Wait():
 		return nil, ctx.Status()
-	case <-c.closed_.Wait():
-		return nil, status.Closedf("mpx client closed")
 	default:
 	}
 
